@@ -362,7 +362,7 @@ impl<'a> Lexer<'a> {
                 } else {
                     self.column += 1;
                 }
-                self.position += 1;
+                self.position += ch.len_utf8();
             } else {
                 break;
             }
@@ -374,19 +374,15 @@ impl<'a> Lexer<'a> {
     }
 
     fn peek_char(&self) -> char {
-        if self.position + 1 < self.input.len() {
-            self.input[self.position + 1..]
-                .chars()
-                .next()
-                .unwrap_or('\0')
-        } else {
-            '\0'
-        }
+        let mut chars = self.input[self.position..].chars();
+        chars.next();
+        chars.next().unwrap_or('\0')
     }
 
     fn advance(&mut self) {
         if self.position < self.input.len() {
-            self.position += 1;
+            // Step over the whole character so the cursor stays on a UTF-8 boundary.
+            self.position += self.current_char().len_utf8();
             self.column += 1;
         }
     }
